@@ -51,6 +51,12 @@ def run(ctx):
         _best_feature_loop(ctx, prog.func(q))
     _label_taint(ctx)
     _direction_downstream(ctx)
+    _record_writers(ctx)
+    # every count in the comparison is a count of labels: the labels are
+    # exactly the targets with q <= threshold, computed from the scores as
+    # given (shared clause with C01 / C12)
+    from .c01 import _check_update_labels
+    _check_update_labels(ctx)
 
 
 # ------------------------------------------------------------------ a
@@ -772,6 +778,89 @@ def _best_feature_loop(ctx, f):
     ctx.check(cnt_ok, "C07a-count-of-direction", f,
               "the candidate count is computed in the loop's direction",
               f"count = {show(cnt_val, 160)}", node=cnt_node)
+
+
+RECORD_ATTRS = ("best_feat", "feat_pass", "desc")
+
+
+def _record_writers(ctx):
+    """Who may write the best-feature record.  brew's fallback reads
+    (best_feat, feat_pass, desc) off the models; the three belong together
+    and are produced by one call of _get_starting_labels in Model.fit.  Any
+    other place that assigns one of them on a model - a loader that "fills
+    in defaults", a copy helper, a setattr loop over a table of names - can
+    separate the direction from the feature it was measured for."""
+    prog = ctx.prog
+    model_classes = {"mokapot.model.Model"} | {
+        c.qual for c in prog.subclasses("mokapot.model.Model")}
+    allowed = {"mokapot.model.Model.__init__", "mokapot.model.Model.fit"}
+    n_sites = 0
+
+    def strings_reachable(func, expr):
+        out = set()
+        T = Terms(DefUse(prog, func))
+        t = T.of(expr)
+        for x in walk_term(t):
+            if not isinstance(x, tuple) or len(x) < 2:
+                continue
+            if x[0] == "const" and isinstance(x[1], str):
+                out.add(x[1])
+            if x[0] == "name" and isinstance(x[1], str) and "." in x[1]:
+                mod, _, nm = x[1].rpartition(".")
+                m = prog.modules.get(mod)
+                v = m.assigns.get(nm) if m is not None else None
+                if v is not None:
+                    out |= {c.value for c in ast.walk(v)
+                            if isinstance(c, ast.Constant)
+                            and isinstance(c.value, str)}
+        return out
+
+    for q in sorted(prog.funcs):
+        fn = prog.funcs[q]
+        if isinstance(fn.node, ast.Lambda):
+            continue
+        own_model = fn.cls is not None and fn.cls.qual in model_classes
+        for n in walk_own(fn.node):
+            targets = []
+            if isinstance(n, ast.Assign):
+                targets = list(n.targets)
+            elif isinstance(n, (ast.AugAssign, ast.AnnAssign)):
+                targets = [n.target]
+            flat = []
+            for tg in targets:
+                flat.extend(tg.elts if isinstance(
+                    tg, (ast.Tuple, ast.List)) else [tg])
+            for tg in flat:
+                if not (isinstance(tg, ast.Attribute)
+                        and tg.attr in RECORD_ATTRS):
+                    continue
+                on_self = isinstance(tg.value, ast.Name) and \
+                    tg.value.id == "self"
+                if on_self and not own_model:
+                    continue    # another class's own attribute of that name
+                n_sites += 1
+                ctx.check(q in allowed, "C07a-record-writers", fn,
+                          f"'{ast.unparse(tg)}' is written where the record "
+                          "is made (Model.__init__ / Model.fit)",
+                          f"{q} assigns {ast.unparse(tg)}: the best-feature "
+                          "record of a model (feature, count, direction) is "
+                          "changed outside Model.fit, so brew's fallback "
+                          "may pair a feature with a direction it was not "
+                          "measured for", node=n)
+            if isinstance(n, ast.Call) and callee_is(
+                    prog, fn, n, "builtins.setattr") and len(n.args) == 3:
+                nm = const_value(n.args[1], None)
+                names = {nm} if isinstance(nm, str) else \
+                    strings_reachable(fn, n.args[1])
+                hit = sorted(set(RECORD_ATTRS) & names)
+                if hit:
+                    n_sites += 1
+                    ctx.check(q in allowed, "C07a-record-writers", fn,
+                              "setattr on the record only where it is made",
+                              f"{q} sets {hit} with setattr(): the "
+                              "best-feature record of a model is changed "
+                              "outside Model.fit", node=n)
+    ctx.floor("C07a-record-writers", n_sites, 3)
 
 
 # ------------------------------------------------------------------ b
